@@ -85,12 +85,12 @@ theorem mkClass_plain {bs : List Cls} {decls : List (Name × Trait)} (hb : ∀ b
 
 theorem NoDeleg_step (E : Env) {w : World} (hw : NoDeleg w) {op : Op} (hop : op.Plain) :
     NoDeleg (step E w op).1 := by
-  have he := step_effect E w op
+  have he := step_effect E w hw.hooks op
   generalize (step E w op).1 = w1 at he
   cases he with
   | noop => exact hw
   | mkClass bases decls bs h =>
-    refine ⟨?_, hw.obj⟩
+    refine ⟨?_, hw.obj, hw.hooks⟩
     intro c hc
     rcases List.mem_append.mp hc with hc | hc
     · exact hw.cls c hc
@@ -101,30 +101,44 @@ theorem NoDeleg_step (E : Env) {w : World} (hw : NoDeleg w) {op : Op} (hop : op.
         exact hw.cls b (List.mem_of_getElem? hi)
       · exact hop
   | new ci c h =>
-    refine ⟨hw.cls, ?_⟩
-    intro o ho
-    rcases List.mem_append.mp ho with ho | ho
-    · exact hw.obj o ho
-    · simp at ho; subst ho; intro e he; simp at he
+    refine ⟨hw.cls, ?_, ?_⟩
+    · intro o ho
+      rcases List.mem_append.mp ho with ho | ho
+      · exact hw.obj o ho
+      · simp at ho; subst ho; intro e he; simp at he
+    · intro o ho
+      rcases List.mem_append.mp ho with ho | ho
+      · exact hw.hooks o ho
+      · simp at ho; subst ho; rfl
   | obj _ oi name o c w' o' ht ho hc hres hch =>
     have hom := List.mem_of_getElem? ho
     have hcm := List.mem_of_getElem? hc
-    refine ⟨hres.classes_plain hw hom hcm, ?_⟩
-    intro x hx
-    simp only at hx
-    rw [hres.objs] at hx
-    rcases List.mem_or_eq_of_mem_set hx with hx | hx
-    · exact hw.obj x hx
-    · subst hx
-      intro e he
-      rcases hch.itrMem e he with h | h | h | ⟨b, h⟩
-      · exact hw.obj o hom e h
-      · subst h; exact hop
-      · exact (hw.cls c hcm).ct (name, e.2) (Map.mem_of_get h)
-      · exact prefixTrait_plain (hw.cls c hcm) (hw.obj o hom) h
+    refine ⟨hres.classes_plain hw hom hcm, ?_, ?_⟩
+    · intro x hx
+      simp only at hx
+      rw [hres.objs] at hx
+      rcases List.mem_or_eq_of_mem_set hx with hx | hx
+      · exact hw.obj x hx
+      · subst hx
+        intro e he
+        rcases hch.itrMem e he with h | h | h | ⟨b, h⟩
+        · exact hw.obj o hom e h
+        · subst h; exact hop
+        · exact (hw.cls c hcm).ct (name, e.2) (Map.mem_of_get h)
+        · exact prefixTrait_plain (hw.cls c hcm) (hw.obj o hom) h
+    · intro x hx
+      simp only at hx
+      rw [hres.objs] at hx
+      rcases List.mem_or_eq_of_mem_set hx with hx | hx
+      · exact hw.hooks x hx
+      · subst hx
+        rcases hch.hooksEq with ⟨p, t, h⟩ | h
+        · subst h; exact hop.elim
+        · rw [h]; exact hw.hooks o hom
   | res _ oi name o c w' ht ho hc hres =>
-    refine ⟨hres.classes_plain hw (List.mem_of_getElem? ho) (List.mem_of_getElem? hc), ?_⟩
-    rw [hres.objs]; exact hw.obj
+    refine ⟨hres.classes_plain hw (List.mem_of_getElem? ho) (List.mem_of_getElem? hc), ?_, ?_⟩
+    · rw [hres.objs]; exact hw.obj
+    · rw [hres.objs]; exact hw.hooks
 
 theorem NoDeleg_run (E : Env) {w : World} (hw : NoDeleg w) {ops : List Op} (hops : ∀ op ∈ ops, op.Plain) :
     NoDeleg (run E w ops).1 := by
@@ -212,7 +226,7 @@ theorem Resolved.classes_inv {w w' : World} {o : Obj} {c : Cls} {name : Name}
 theorem Inv_step (E : Env) {w : World} (hw : Inv w) {op : Op} (hop : op.Plain) (hs : SafeOp w op) :
     Inv (step E w op).1 := by
   refine ⟨NoDeleg_step E hw.nd hop, ?_⟩
-  have he := step_effect E w op
+  have he := step_effect E w hw.nd.hooks op
   generalize (step E w op).1 = w1 at he
   cases he with
   | noop => exact hw.cls
@@ -286,6 +300,7 @@ theorem AllClean_step_def (E : Env) {w : World} (hw : AllClean w) {op : Op} (hd 
   | addTrait _ _ _ => cases hd
   | removeTrait _ _ => cases hd
   | getTrait _ _ _ => cases hd
+  | hook _ _ _ => cases hd
 
 theorem SafeOp_of_allClean {w : World} (hw : AllClean w) (op : Op) : SafeOp w op := by
   cases op <;> simp only [SafeOp]
